@@ -235,8 +235,22 @@ func (c *Channel) JoinPresence(ctx context.Context, p stanza.Presence, opt ...Op
 	if c.client.managed == nil {
 		c.client.managed = make(map[string]*Channel)
 	}
+	wasManaged := c.client.managed[p.To.String()] == c
 	c.client.managed[p.To.String()] = c
 	c.client.managedM.Unlock()
+	joined := false
+	defer func() {
+		if joined || wasManaged {
+			return
+		}
+		// The room never confirmed this request: it does not count us among its
+		// occupants under that address.
+		c.client.managedM.Lock()
+		if c.client.managed[p.To.String()] == c {
+			delete(c.client.managed, p.To.String())
+		}
+		c.client.managedM.Unlock()
+	}()
 
 	ctx, cancel := context.WithCancel(ctx)
 	defer cancel()
@@ -252,7 +266,6 @@ func (c *Channel) JoinPresence(ctx context.Context, p stanza.Presence, opt ...Op
 	case <-ctx.Done():
 		return ctx.Err()
 	}
-	joined := false
 	defer func() {
 		if joined {
 			return
